@@ -5,7 +5,7 @@
    literals_are_quoted: every literal is a concatenation of pieces (model/Quote.v: PQ = escapeQuotes of some bytes,
                         PF = plain ASCII text without double quote, backslash, LF, PE = backslash double-quote),
                         provided the element/attribute NAMES of the file are plain after html.EscapeString (the parser
-                        admits only letters, digits and a few ASCII signs in names).
+                        allows only letters, digits and a few ASCII signs in names).
    Technique: a state invariant closed under the monadic combinators, driven by a syntactic tactic (as in
    proofs/GenAddsProof.v). *)
 From Coq.Strings Require Import Byte String.
